@@ -428,7 +428,7 @@ fn enumerated() -> Vec<Vec<Op>> {
 }
 
 pub fn run(ctx: &Ctx) -> i32 {
-    let (shards, cases) = ctx.tier.pick((8, 2500), (64, 30_000));
+    let (shards, cases) = ctx.tier.pick((16, 10000), (64, 30_000));
     let (mut stats, mut viol) = run_shards(
         ctx,
         "random",
